@@ -154,6 +154,9 @@ qb_ipc_us_sock_error_is_disconnected(int err)
 #endif
 	    err == -EMSGSIZE ||
 	    err == -ENOMSG ||
+	    /* the caller's buffer is too small for the message that is
+	     * waiting / the kernel is short of buffers right now */
+	    err == -ENOBUFS ||
 	    err == -EINVAL) {
 		return QB_FALSE;
 	}
